@@ -109,7 +109,8 @@ DictPage(ch, sty) ==
 
 \* ---- one chunk placed at file offset `off`: returns [bytes, meta (thrift ColumnChunk)]
 ChunkW(ch, off, extras, sty) ==
-    LET hasDict == Len(ch.dict) > 0
+    LET \* a chunk may carry an EMPTY dictionary page (all values null; writers that always dictionary-encode emit it)
+        hasDict == Len(ch.dict) > 0 \/ ("emptyDict" \in DOMAIN ch /\ ch.emptyDict)
         dp == IF hasDict THEN <<DictPage(ch, sty)>> ELSE <<>>
         pgs == dp \o [i \in 1..Len(ch.pages) |-> IF ch.pages[i].v2 THEN DataPageV2(ch, ch.pages[i], sty) ELSE DataPage(ch, ch.pages[i], extras, sty)]
         bytes == Flatten([i \in 1..Len(pgs) |-> pgs[i].bytes])
